@@ -1774,8 +1774,9 @@ def make_stub_modules(I):
         I_.ctx.sleep(I_, args[0] if args else 0)
         return None
     m.ns["sleep"] = NativeFn("asyncio.sleep", a_sleep)
-    for n in ["wait", "gather", "create_task", "get_running_loop", "current_task", "wait_for", "get_event_loop", "run", "ensure_future"]:
+    for n in ["wait", "gather", "create_task", "get_running_loop", "wait_for", "get_event_loop", "run", "ensure_future"]:
         m.ns[n] = NativeFn("asyncio." + n, _unmodelled("asyncio." + n))
+    m.ns["current_task"] = NativeFn("asyncio.current_task", lambda I_, a, k: Opaque("logging.task"))
     q = mod("asyncio.queues")
     Q = ClassObj("Queue", [B["object"]], {}, q, "asyncio.Queue")
 
